@@ -138,7 +138,7 @@ func c04Len(bs []uint8) int {
 // C04 — jumps, calls, returns, stack.
 func runC04(c *Ctx) {
 	mon.DiscardStdLog()
-	k := c.Pick(512, 8192)
+	k := c.Pick(512, 40000)
 	var mu sync.Mutex
 	var evals, takenN, untakenN, overlapN, wrapN, laws, directN, cowN int64
 	distinct := mon.NewDistinct(4_000_000)
@@ -628,7 +628,7 @@ func runC04(c *Ctx) {
 		mem := &mon.Mem{}
 		mem.Fill(r.U64())
 		mem.Logging = true
-		n0 := c.Pick(64, 1024)
+		n0 := c.Pick(64, 20000)
 		for _, od := range ops {
 			op := od.bs[0]
 			isJP := op == 0xc3 || op&0xc7 == 0xc2
